@@ -29,10 +29,12 @@ REV = {v: k for k, v in PATHS.items()}
 
 def contents(seed):
     rng = random.Random(seed)
-    big = lambda tag: (tag.encode() + bytes(rng.randrange(256) for _ in range(1024))) * 1100  # noqa: E731  ~1.1 MiB
+    # beyond the 1 MiB threshold (hashed in build()'s own thread pool), sizes far apart: ~4.4 MiB and ~1.1 MiB, so that the
+    # pool does not finish them in listing order whichever way they are listed
+    big = lambda tag, n: (tag.encode() + bytes(rng.randrange(256) for _ in range(1024))) * n  # noqa: E731
     # c3 has the size of c1: an edit between the two inside one second leaves only the sub-second mtime to tell
     return {"c0": b"", "c1": b"line one\nline two\n", "c2": b"crlf one\r\ncrlf two\r\n", "c3": b"LINE ONE\nline two\n",
-            "big1": big("B1"), "big2": big("B2")}
+            "big1": big("B1", 4400), "big2": big("B2", 1100)}
 
 
 class Dir:
@@ -286,7 +288,7 @@ def check(run: core.Run, replay=None):
     run.extra.update({
         "rule": "directed (cold, fully warm, partially warm after editing each single file, then noop) and random "
                 "behaviours of edit / build / sub-object on a real directory of 5 files at 3 depths (empty, LF, CRLF and "
-                "two 1.1 MiB files in one directory), files created in random order, checksum_jobs in {default, 1, 4}; "
+                "a 4.4 MiB and a 1.1 MiB file in one directory), files created in random order, checksum_jobs in {default, 1, 4}; "
                 "Tree.add in random order with random metadata after every build",
         "distinct_serialisations": len(serials)})
     run.assumptions += ["md5 injective on the contents used", "every edit changes the file's (inode, mtime, size) token"]
